@@ -328,6 +328,29 @@ def c08(res, rng, tier):
     for i in range(nlong):
         pool = [r.choice(keys) for _ in range(r.choice([12, 40, 300, 2000]))] + ALPHA10
         lines.append(render_history(random_history(r, pool, r.choice([200, 600]) if q else r.choice([1500, 4000])), every_len=True))
+    # multi-collision family: every query key against every ordered selection (<= 4) of the stored
+    # keys that are equal to it ("Set and Del first remove EVERY entry whose key equals their argument")
+    import itertools
+    K = ALPHA10 + ["t( z:61 z:62 )", "t( s:61 s:62 )", "t( b:61 b:62 )", "t( s:61 b:62 )", "t( b:61 s:62 )",
+                   "t( z:61 s:62 )", "t( i:1 z:61 z:62 )", "t( T s:61 b:62 )", "t( f:3ff0000000000000 b:61 s:62 )"]
+    pk = {k: PV.parse(k) for k in K}
+    for qk in K:
+        M = [k for k in K if k != qk and PV.py_eq(pk[qk], pk[k])]
+        for n in range(1, min(4, len(M)) + 1):
+            for sel in itertools.permutations(M, n):
+                if n >= 3 and hash((qk, sel)) % 3:      # thin out the longest ones
+                    continue
+                pre = [("S", k) for k in sel]
+                for last in (("D", qk), ("S", qk)):
+                    h = pre + [last]
+                    toks = []
+                    for i, (o, k) in enumerate(h):
+                        toks += (["S", k, "i:%d" % i] if o == "S" else [o, k])
+                    toks += ["L", "I"]
+                    for k in sel:
+                        toks += ["G", k]
+                    toks += ["G", qk]
+                    lines.append("dict " + " ".join(toks))
     known = [k for k in C.load_known_findings() if k.get("property") == "C08" and k.get("class") == KNOWN_C08]
     if known:
         lines.append("dict S s:61 i:1 S b:61 i:2 G z:61")       # the listed witness
